@@ -597,3 +597,50 @@ Definition obs_of (ks : list string) (o : obsi) : obs :=
   | ObsOkI c t f g d => ObsOk (resolve ks c) (resolve ks t) (map (fun i => nth i ks "") f) g d
   | ObsRejI k c => ObsRej k (option_map (resolve ks) c)
   end.
+
+(* exhaustive comparison of alter_scenario_if_known_to_fail: the full product of the option families, enumerated here in
+   the same order as itertools.product; the implementation's outcome per combination is an index into `table` *)
+Fixpoint opt_product (fams : list (string * list string)) : list options :=
+  match fams with
+  | [] => [[]]
+  | (k, vs) :: t => flat_map (fun v => map (fun o => (k, OStr v) :: o) (opt_product t)) vs
+  end.
+
+Definition optv_eqb (a b : optv) : bool :=
+  match a, b with
+  | OStr x, OStr y => String.eqb x y
+  | OStrNum x _, OStrNum y _ => String.eqb x y
+  | ONum x, ONum y => Qeq_bool x y
+  | ONone, ONone => true
+  | _, _ => false
+  end.
+
+Definition optv_text (v : optv) : string :=
+  match v with OStr s | OStrNum s _ => s | ONum _ => "<number>" | ONone => "<none>" end.
+
+(* "" when the dictionary comes back unchanged, otherwise "key=new value" for the entries that differ *)
+Definition alter_outcome (o : options) (iso : string) : string :=
+  match alter failing_scenarios o (VStr iso) with
+  | ARej _ => "<rejected>"
+  | AOk o' =>
+    String.concat "," (flat_map (fun kv => match lookup (fst kv) o' with
+                                           | Some v => if optv_eqb v (snd kv) then [] else [fst kv ++ "=" ++ optv_text v]
+                                           | None => [fst kv ++ "=<gone>"]
+                                           end) o)
+  end.
+
+Fixpoint first_alter_mismatch (i : nat) (rest : options) (iso : string) (table : list string)
+         (os : list options) (es : list nat) : nat :=
+  match os, es with
+  | [], [] => 0
+  | o :: os', e :: es' =>
+    if String.eqb (alter_outcome (o ++ rest)%list iso) (nth e table "<no such outcome>")
+    then first_alter_mismatch (S i) rest iso table os' es'
+    else S i
+  | _, _ => 999999
+  end.
+
+(* 0 = model and implementation agree on every combination; n+1 = first disagreement at combination n *)
+Definition check_alter (fams : list (string * list string)) (rest : options) (iso : string)
+           (table : list string) (expected : list nat) : nat :=
+  first_alter_mismatch 0 rest iso table (opt_product fams) expected.
